@@ -48,7 +48,8 @@ const TYPES: [DataType; 13] = [
 ];
 const F32S: [f32; 10] = [f32::NAN, f32::NEG_INFINITY, -1.5, -0.0, 0.0, 0.1, 1.5, 2.0, f32::INFINITY, 16777216.0];
 const F64S: [f64; 10] = [f64::NAN, f64::NEG_INFINITY, -1.5, -0.0, 0.0, 0.1, 1.5, 2.0, f64::INFINITY, 1e300];
-const STRS: [&str; 8] = ["", "a", "ab", "apple", "b", "Ünï", "zz", "it's"];
+const STRS: [&str; 11] = ["", "a", "ab", "apple", "b", "Ünïcode", "zz", "it's", "pineapple", "apple pie", "app"];
+pub const SUBS: [&str; 9] = ["ap", "", "nï", "app", "ppl", "apple pie", "zzz", "le p", "Ün"];
 const TAGS: [&str; 4] = ["x", "y", "z", "w"];
 
 /// a value of a column as (position for the model, SQL literal)
@@ -251,22 +252,22 @@ async fn ids_inner(ds: &Dataset, filter: &str, use_index: bool) -> Result<Vec<u6
 }
 
 impl Table {
-    pub async fn create(rng: &mut Rng, kinds: &[IndexType], with_tags: bool) -> Result<Table, String> {
+    pub async fn create(rng: &mut Rng, kinds: &dyn Fn(&mut Rng, &DataType) -> IndexType, with_tags: bool) -> Result<Table, String> {
         let mut cols = vec![ColSpec { name: "id".into(), ty: DataType::Int64, nullable: false, indices: vec![] }];
         let ncols = rng.range(2, 3) as usize;
         for i in 0..ncols {
             let ty = rng.pick(&TYPES).clone();
             let mut indices = vec![];
             if rng.chance(5, 6) {
-                indices.push((format!("c{i}_ix"), *rng.pick(kinds)));
+                indices.push((format!("c{i}_ix"), kinds(rng, &ty)));
                 if rng.chance(1, 8) {
-                    indices.push((format!("c{i}_ix2"), *rng.pick(kinds)));
+                    indices.push((format!("c{i}_ix2"), kinds(rng, &ty)));
                 }
             }
             cols.push(ColSpec { name: format!("c{i}"), ty, nullable: rng.chance(3, 4), indices });
         }
         // a boolean column is always there (the `b = false` form of F1), an unindexed integer too
-        cols.push(ColSpec { name: "b".into(), ty: DataType::Boolean, nullable: rng.chance(3, 4), indices: if rng.chance(3, 4) { vec![("b_ix".into(), *rng.pick(kinds))] } else { vec![] } });
+        cols.push(ColSpec { name: "b".into(), ty: DataType::Boolean, nullable: rng.chance(3, 4), indices: if rng.chance(3, 4) { vec![("b_ix".into(), kinds(rng, &DataType::Boolean))] } else { vec![] } });
         cols.push(ColSpec { name: "z".into(), ty: DataType::Int32, nullable: true, indices: vec![] });
         if with_tags {
             cols.push(ColSpec {
@@ -452,6 +453,9 @@ fn leaf(rng: &mut Rng, cols: &[ColSpec]) -> String {
             return format!("{}({}, [{}])", rng.pick(&["array_has_any", "array_has_all"]), t.name, labels.join(", "));
         }
     }
+    if c.ty == DataType::Utf8 && rng.chance(1, 3) {
+        return format!("contains({n}, '{}')", rng.pick(&SUBS));
+    }
     let ops = ["=", "<>", "!=", "<", "<=", ">", ">="];
     match rng.below(16) {
         0..=5 => format!("{n} {} {}", rng.pick(&ops), lit_for(rng, c)),
@@ -479,6 +483,41 @@ pub fn gen_pred(rng: &mut Rng, cols: &[ColSpec], depth: u32) -> String {
         0 | 1 => format!("NOT ({})", gen_pred(rng, cols, depth - 1)),
         2..=4 => format!("({}) AND ({})", gen_pred(rng, cols, depth - 1), gen_pred(rng, cols, depth - 1)),
         _ => format!("({}) OR ({})", gen_pred(rng, cols, depth - 1), gen_pred(rng, cols, depth - 1)),
+    }
+}
+
+/// string literals of contains(col, 'lit') calls in an expression
+pub fn contains_literals(e: &Expr) -> Vec<String> {
+    use lance::deps::datafusion::common::tree_node::{TreeNode, TreeNodeRecursion};
+    use lance::deps::datafusion::scalar::ScalarValue;
+    let mut out = vec![];
+    let _ = e.apply(|x| {
+        if let Expr::ScalarFunction(f) = x {
+            if f.name() == "contains" && f.args.len() == 2 {
+                if let Expr::Literal(ScalarValue::Utf8(Some(s)) | ScalarValue::LargeUtf8(Some(s)), _) = &f.args[1] {
+                    out.push(s.clone());
+                }
+            }
+        }
+        Ok(TreeNodeRecursion::Continue)
+    });
+    out
+}
+/// the class Known_C20_ngram_no_trigram_query: >= 3 bytes, but no three consecutive ASCII letters / digits after
+/// lower-casing and ASCII folding (folding of the non-ASCII characters of this harness' pools only)
+pub fn no_trigram_query(s: &str) -> bool {
+    if s.len() < 3 {
+        return false;
+    }
+    let folded: Vec<char> = s.chars().flat_map(|c| match c { 'Ü' | 'ü' => vec!['u'], 'ï' | 'Ï' => vec!['i'], c => c.to_lowercase().collect::<Vec<_>>() }).collect();
+    !folded.windows(3).any(|w| w.iter().all(|c| c.is_ascii_alphanumeric()))
+}
+fn has_text_leaf(q: &SIdx) -> bool {
+    match q {
+        SIdx::Not(x) => has_text_leaf(x),
+        SIdx::And(a, b) | SIdx::Or(a, b) => has_text_leaf(a) || has_text_leaf(b),
+        SIdx::Query { q: Query::Fn(Fk::Contains, _), .. } => true,
+        _ => false,
     }
 }
 
@@ -523,6 +562,7 @@ pub async fn check_pred(t: &Table, sql: &str, rows: &[(u64, u64, Row)], info: &I
         (Some(e), Some(ri)) => lance_index::scalar::expression::apply_scalar_indices(e.clone(), ri).ok().and_then(|ie| ie.scalar_query.map(|q| sidx_of(&q, &mut ctx, &nm))),
         _ => None,
     };
+    let k4 = real_sq.as_ref().map(|q| has_text_leaf(q)).unwrap_or(false) && optimized.as_ref().map(|e| contains_literals(e).iter().any(|x| no_trigram_query(x))).unwrap_or(false);
     let k3 = real_sq.as_ref().map(|q| has_bitmap_inverted(q, &|i| ixs.iter().any(|x| x.n == i && x.bitmap))).unwrap_or(false);
     match (&with, &without) {
         (Ok(a), Ok(b)) => {
@@ -530,9 +570,10 @@ pub async fn check_pred(t: &Table, sql: &str, rows: &[(u64, u64, Row)], info: &I
                 sink.oracle_ok();
                 sink.count(if k1 || k2 || k3 { "e2e:equal-though-in-class" } else { "e2e:equal" });
             } else {
-                let class = if k1 { Some("not_over_nullable") } else if k2 { Some("range_bounds_swapped") } else { None };
+                let class = if k4 { Some("ngram_no_trigram_query") } else if k1 { Some("not_over_nullable") } else if k2 { Some("range_bounds_swapped") } else { None };
                 sink.count(match class {
                     Some("not_over_nullable") => "e2e:DIFF-class-not_over_nullable",
+                    Some("ngram_no_trigram_query") => "e2e:DIFF-class-ngram_no_trigram_query",
                     Some(_) => "e2e:DIFF-class-range_bounds_swapped",
                     None => "e2e:DIFF-unlisted",
                 });
@@ -620,10 +661,12 @@ pub async fn corpus(st: &mut Streams, sink: &mut Sink) -> Result<(), String> {
     Ok(())
 }
 
-pub async fn run(args: &Args, sink: &mut Sink, rng: &mut Rng, kinds: &[IndexType], with_tags_every: u64) -> Streams {
+pub async fn run(args: &Args, sink: &mut Sink, rng: &mut Rng, kinds: &dyn Fn(&mut Rng, &DataType) -> IndexType, with_tags_every: u64, with_corpus: bool) -> Streams {
     let mut st = Streams::new();
-    if let Err(e) = corpus(&mut st, sink).await {
-        sink.oracle_fail(None, "corpus table could not be built", json!({"error": e}));
+    if with_corpus {
+        if let Err(e) = corpus(&mut st, sink).await {
+            sink.oracle_fail(None, "corpus table could not be built", json!({"error": e}));
+        }
     }
     let ntables = args.vol(8, 150);
     let npreds = args.vol(22, 40);
